@@ -1,1 +1,1 @@
-def lpIrfftnHasShapeUtils : Bool := false
+def lpIrfftnHasShapeUtils : Bool := true
